@@ -31,6 +31,7 @@ from geckolib import GeckoSpaState as S  # noqa: E402
 DELAYS = [0.0, 0.5, 1.0, 2.0]
 STARTS = [0.0, 0.5, 1.0]
 SWITCH_AT = [0.0, 0.5, 1.0, 1.5, 2.0, 2.5, 3.0]
+CANCEL_AT = [0.25, 0.5, 0.75, 1.0, 1.25]
 
 
 def table(active):
@@ -75,8 +76,9 @@ def _table_check():
     return n, viol
 
 
-def _sleep_run(ch, sleepers, switches, batch=False):
-    """sleepers: ((start, delay),...), switches: (time,...)"""
+def _sleep_run(ch, sleepers, switches, batch=False, cancels=()):
+    """sleepers: ((start, delay),...), switches: (time,...), cancels: ((sleeper index, time),...) - a task that is
+    cancelled while it sleeps (a disconnect tears the connection's loops down; the other sleepers live on)"""
     lib.reset_library()
     loop = VLoop(ch, window=0.0)
     loop.batch_choices_enabled = batch  # timers that expire at the same instant may run as one asyncio batch
@@ -107,14 +109,22 @@ def _sleep_run(ch, sleepers, switches, batch=False):
             errors.append(("assert-before-any-sleeper" if not started else "assert-with-sleepers", at))
             sw_done.append((loop.time() - t0, None))
 
+    async def canceller(i, at):
+        await asyncio.sleep(at)
+        ts[i].cancel()
+
+    cancelled = {i for i, at in cancels}
     with loop.running():
         ts = [loop.create_task(sleeper(i, s, d), name=f"HARNESS:sleeper{i}") for i, (s, d) in enumerate(sleepers)]
         ts += [loop.create_task(switcher(k, at, k % 2 == 0), name=f"HARNESS:switch{k}") for k, at in enumerate(switches)]
+        ts += [loop.create_task(canceller(i, at), name=f"HARNESS:cancel{i}") for i, at in cancels]
     loop.run_for(20.0, lambda: all(t.done() for t in ts))
     why = None
     for t in ts:
         if not t.done():
             why = ("hung", f"{t.get_name()} never finished")
+        elif t.cancelled():
+            pass
         elif t.exception() is not None:
             why = ("raised", f"{t.get_name()} raised {t.exception()!r}")
     if why is None and any(e[0] == "assert-with-sleepers" for e in errors):
@@ -123,6 +133,8 @@ def _sleep_run(ch, sleepers, switches, batch=False):
     if why is None:
         for i, (s, d) in enumerate(sleepers):
             for r in range(ROUNDS):
+                if i in cancelled and ((i, r) not in started or (i, r) not in woke):
+                    continue  # cancelled before or during this round: nothing is asked of a cancelled sleeper
                 st, n_sw_before = started[(i, r)]
                 dd = d if d > 0 or r == 0 else 0.5
                 # switches that happened after this sleep began, in the order the schedule ran them
@@ -137,7 +149,7 @@ def _sleep_run(ch, sleepers, switches, batch=False):
         good = [m for t, m in sw_done if m is not None]
         if good and lib.config_values() != table(good[-1]):
             why = ("table", "table after the last switch is not the chosen one")
-    obs = core.digest([sleepers, switches, sorted(woke.items()), errors])
+    obs = core.digest([sleepers, switches, cancels, sorted(woke.items()), errors])
     loop.shutdown()
     return why, obs, errors
 
@@ -145,13 +157,17 @@ def _sleep_run(ch, sleepers, switches, batch=False):
 def _sleep_job(job):
     (sleepers, switches), prefix = job[0][:2], job[1]
     batch = len(job[0]) > 2 and bool(job[0][2])
+    cancels = tuple(job[0][3]) if len(job[0]) > 3 else ()
 
     def body(ch):
-        why, obs, errors = _sleep_run(ch, sleepers, switches, batch)
+        why, obs, errors = _sleep_run(ch, sleepers, switches, batch, cancels)
         viol = []
         if why:
-            viol.append((f"C17|sleep|{why[0]}", f"sleepers {sleepers} switches {switches} order {[c for k, n, c in ch.trace]}: {why[1]}",
+            viol.append((f"C17|sleep|{why[0]}" + ("|with-cancelled-sleeper" if cancels else ""),
+                         f"sleepers {sleepers} switches {switches}{f' cancelled (sleeper, at) {cancels}' if cancels else ''} "
+                         f"order {[c for k, n, c in ch.trace]}: {why[1]}",
                          {"mode": "sleep", "sleepers": [list(s) for s in sleepers], "switches": list(switches), "batch": batch,
+                          "cancels": [list(c) for c in cancels],
                           "prefix": [list(p) for p in ch.trace]}))
         return {"violations": viol, "obs": obs, "end": obs, "asserts": len(errors)}
 
@@ -169,7 +185,7 @@ def _plan_job(job):
     out["violations"] += st["violations"]
     if st["capped"]:
         out["caps"].append(f"sleep{plan}: execution cap 20000 hit")
-    if plan[1] and not st["violations"]:
+    if plan[1] and not st["violations"] and len(plan) == 2:
         st = explore.explore_local(_sleep_job, plan + (True,), bound=2 if quick else 4, max_execs=20000)
         out["executions"] += st["executions"]
         out["batch_executions"] += st["executions"]
@@ -193,11 +209,21 @@ def _facade_job(snapname):
     rig = Rig(Chooser(), snapshot=snap)
     if not rig.connect(120.0):
         raise core.HarnessError(f"C17: {snapname} did not connect")
-    rig.loop.run_for(2.0)
     fac = rig.facade
     devs = list(fac.pumps) + list(fac.blowers)  # the statement's own definition, not the facade's helper
     viol = []
     n = 0
+    # the facade has reported its first update (what wait_for_one_update waits for): whatever the table was before, it
+    # now follows the devices
+    rig.loop.run_for(60.0, lambda: fac._ready)
+    if not fac._ready:
+        raise core.HarnessError(f"C17: facade of {snapname} never reported its first update")
+    on0 = any(bool(d.is_on) for d in devs)
+    if devs and lib.config_values() != table(on0):
+        viol.append((f"C17|facade|mode-at-connect", f"{snapname}: connected with pumps/blowers on={[bool(d.is_on) for d in devs]} but right "
+                     f"after the facade's first update GeckoConfig is not the {'active' if on0 else 'idle'} table",
+                     {"mode": "facade", "snapshot": snapname}))
+    rig.loop.run_for(2.0)
     if not devs:
         rig.exit(); rig.close()
         return snapname, 0, 0, viol
@@ -369,6 +395,19 @@ def run(ctx):
                     if sw and min(s for s, d in sl) > min(sw):
                         continue
                     plans.append((sl, sw))
+    # one of two or three sleepers is cancelled in its sleep (its connection is torn down) before a switch: the others
+    # still have to be woken by it
+    ncancel = 0
+    for ns in (2, 3):
+        sl_sets = list(itertools.combinations_with_replacement(list(itertools.product(STARTS[:2], DELAYS[2:])), ns))
+        for sl in sl_sets:
+            for who in range(ns):
+                for at in CANCEL_AT if not ctx.quick else CANCEL_AT[::2]:
+                    for nsw in (1, 2):
+                        for sw in itertools.combinations([t for t in SWITCH_AT if t >= at][:4], nsw):
+                            plans.append((sl, sw, False, ((who, at),)))
+                            ncancel += 1
+    ctx.set("sleep_plans_with_a_cancelled_sleeper", ncancel)
     total = 0
     btotal = 0
     asserts = 0
@@ -413,7 +452,8 @@ def replay(ctx, data):
     if data["mode"] == "table":
         ctx.merge_violations(_table_check()[1])
     elif data["mode"] == "sleep":
-        res = _sleep_job(((tuple(tuple(s) for s in data["sleepers"]), tuple(data["switches"]), bool(data.get("batch"))),
+        res = _sleep_job(((tuple(tuple(s) for s in data["sleepers"]), tuple(data["switches"]), bool(data.get("batch")),
+                           tuple(tuple(c) for c in data.get("cancels", ()))),
                           [tuple(p) for p in data["prefix"]]))
         ctx.merge_violations(res["violations"])
     elif data["mode"] == "reconnect":
